@@ -26,10 +26,12 @@ import (
 
 	"github.com/google/gopacket"
 	"github.com/google/gopacket/layers"
+	"github.com/omec-project/upf-epc/logger"
 	pb "github.com/omec-project/upf-epc/pfcpiface/bess_pb"
 	"github.com/omec-project/upf-epc/pfcpiface/metrics"
 	"github.com/wmnsk/go-pfcp/ie"
 	"github.com/wmnsk/go-pfcp/message"
+	"go.uber.org/zap/zapcore"
 	"google.golang.org/grpc"
 	"google.golang.org/grpc/connectivity"
 	"google.golang.org/protobuf/types/known/anypb"
@@ -287,6 +289,7 @@ type l1Cfg struct {
 	UeIPAlloc bool   `json:"ueip_alloc"`
 	Pool      string `json:"pool"`
 	EndMarker bool   `json:"end_marker"`
+	LogLevel  string `json:"log_level"` // "" (info) | "debug"
 	HbTimer   bool   `json:"hb_timer"` // heartbeat monitor enabled (interval one hour: it never fires inside a history)
 	AccessIP  string `json:"access_ip"`
 	CoreIP    string `json:"core_ip"`
@@ -384,6 +387,11 @@ func (w *l1World) boot() error {
 			return err
 		}
 		u.ippool = p
+	}
+	if cfg.LogLevel == "debug" {
+		logger.SetLogLevel(zapcore.DebugLevel)
+	} else {
+		logger.SetLogLevel(zapcore.InfoLevel)
 	}
 	conf := &Conf{}
 	for _, q := range cfg.Qos {
